@@ -1240,14 +1240,34 @@ fn oracle(c: &Case, o: &RunOut, valid: bool, idx: usize, rec: &mut Recorder) {
     if c.cx.is_some() {
         return;
     }
+    // the remaining clauses speak about ONE lookup; with zero-latency replies several callers are
+    // served by several consecutive lookups whose exchanges are merged in the log
+    if c.k > 1 && c.srvs.iter().flat_map(all_steps).any(|st| st.lat_ms == 0) {
+        return;
+    }
     let r0 = &o.callers[0];
 
     // (4) a truncated UDP reply is retried over TCP (same server), unless the lookup ended first
+    // (with a zero-latency reply the members of a batch are not all started before the first reply is
+    //  handled, so "the lookup ended in the same round" cannot be read off the log: clause skipped)
+    let zero_lat = c.srvs.iter().flat_map(all_steps).any(|st| st.lat_ms == 0);
     for (i, e) in o.log.iter().enumerate() {
+        if zero_lat {
+            break;
+        }
         if e.rep == Rep::Tc && !e.tcp && c.srvs[e.srv].tcp.is_some() {
             let Some(end) = e.end_us else { continue };
             let retried = o.log[i + 1..].iter().any(|x| x.srv == e.srv && x.tcp && x.start_us >= end);
-            let ended_in_batch = r0.0.starts_with("ans:") || r0.0 == "err:timeout" || r0.1 <= o.log.iter().filter(|x| x.start_us == e.start_us).filter_map(|x| x.end_us).max().unwrap_or(0);
+            // the lookup may end inside the same round: with the deadline, or with a reply that ends a
+            // lookup by design (answer, trusted NXDOMAIN, NODATA, SERVFAIL, REFUSED) from a request that
+            // was already in flight when the truncated reply arrived
+            let terminal = |x: &Ex| matches!(x.rep, Rep::Ans | Rep::Nd | Rep::Sf | Rep::Rf) || (x.rep == Rep::Nx && c.srvs[x.srv].trust);
+            // (a server request is a unit: the exchange after a reconnect continues the request)
+            let request_start = |x: &Ex| {
+                o.log.iter().find(|y| y.srv == x.srv && y.rep == Rep::Rst && y.end_us == Some(x.start_us)).map(|y| y.start_us).unwrap_or(x.start_us)
+            };
+            let ended_in_batch = r0.0 == "err:timeout"
+                || o.log.iter().any(|x| x.end_us == Some(r0.1) && request_start(x) <= end && terminal(x));
             if !retried && !ended_in_batch {
                 rec.fail(idx, format!("server {} answered truncated over UDP at {} ms and was never retried over TCP (result {})", e.srv, end / 1000, r0.0), "");
             }
@@ -1610,9 +1630,13 @@ pub fn run(o: &Opts, rec: &mut Recorder) {
     if o.replay_only {
         return;
     }
+    let t0 = Instant::now();
     enumerate_a(o, rec);
+    eprintln!("c18: enumeration {} cases {:?}", rec.cases.len(), t0.elapsed());
     random_a(o, rec);
+    eprintln!("c18: +random {} cases {:?}", rec.cases.len(), t0.elapsed());
     run_paced(gen_b(o), rec);
+    eprintln!("c18: +paced {} cases {:?}", rec.cases.len(), t0.elapsed());
     exec("real 300 240", rec);
     exec("real 300 60", rec);
 }
